@@ -149,6 +149,18 @@ def rule_reduction(ctx: Ctx) -> None:
         cfg_v = ctx.cfg(v)
         wn = cfg_v.node_containing(wraps[0])
         facts = guard_facts(cfg_v, Defs(v), wn) if wn is not None else []
+        # a flag that is set from the predicate and may only be cleared afterwards (`w = pred(...); if w and ...: w = False; if w: ...`):
+        # when the flag is true it still holds the predicate's value
+        dv = Defs(v)
+        expanded = []
+        for t, pol in facts:
+            if pol and t.isidentifier():
+                vals = [a.value for a in ast.walk(v.node) if isinstance(a, ast.Assign) and any(isinstance(x, ast.Name) and x.id == t for x in a.targets)]
+                live = [x for x in vals if not (isinstance(x, ast.Constant) and x.value in (False, None))]
+                if len(live) == 1:
+                    t = norm(dv.resolve(live[0]))
+            expanded.append((t, pol))
+        facts = expanded
         ok = any("_axis_is_reduced(" in t and pol for t, pol in facts)
         ctx.add("4-reduction", v, wraps[0], ok, "the output type is wrapped in Array[...] only for reduced axes" if ok else
                 f"the Array[...] wrapping does not require `_axis_is_reduced(...)` (it happens under {[t for t, _p in facts][-3:]}): element-wise consumers are compared against an array type", key="wrap-guard")
